@@ -23,6 +23,14 @@ The same for the functional and module Black-Scholes prices behind `def pricer(*
 Global autograd state (predicate + model): every module Greek, the modules' forward, the functional forms, autogreek on module prices and on
 user pricers inside torch.no_grad() / set_grad_enabled(False) / inference_mode() and after set_default_dtype(float64) (float64 and float32
 data): the routes that do not depend on the caller's gradient mode have to answer, every value that comes back has to be the derivative.
+Glue (correspondence, op "autogreek"; model lean/PfVerif/Model/Autogreek.lean, theorems Lemmas/C08Glue.lean): in the three user-pricer sections
+(every parameterisation; given parameterisation x pricer names on grids; declarations) the pricer is called through a wrapper that RECORDS the
+keyword arguments autogreek hands to it; element by element the signature read with inspect.signature, the caller's keyword arguments and the
+body of the pricer (obtained by running the very same function object on symbolic arguments) go to the model, which answers with the keyword
+arguments the pricer receives (names in dict order, values), the error (ValueError before the call, TypeError of the call) or the Greek (dual
+numbers): names compared exactly, values to 1e-12, Greeks to 1e-8 (gamma 1e-7).  A last section exercises the glue where the others never go:
+required parameters neither passed nor derived, no parameterisation at all, `**kwargs` and positional-only parameters, stale moneyness /
+log_moneyness / variance entries, variances <= 0, entries the pricer does not name.
 """
 import math
 from common import *  # noqa
@@ -330,6 +338,107 @@ def first_mismatch(got, ref, rel, floor):
         if not abs(a - b) <= rel * max(abs(b), floor):
             return j, a, b
     return None
+
+
+# ---- the GLUE of autogreek against the model (op "autogreek") ------------------------------------
+
+class Sym:
+    """Symbolic scalar.  Calling a user pricer on Sym arguments yields its body as a tree of the model's closed language of pricer bodies
+    (lean/PfVerif/Model/Autogreek.lean `Expr`: var, num, add, sub, mul, div, neg, exp, log, sqrt, sin, cos, ncdf) - the very function object
+    that autogreek differentiates is the one translated; torch functions applied to a Sym are caught through __torch_function__."""
+    __slots__ = ("tree",)
+
+    def __init__(self, tree):
+        self.tree = tree
+
+    @staticmethod
+    def of(x):
+        return x if isinstance(x, Sym) else Sym(["num", float_bits(float(x))])       # python numbers, 0-dim tensors
+
+    @staticmethod
+    def bin(op, a, b):
+        return Sym([op, Sym.of(a).tree, Sym.of(b).tree])
+
+    def __add__(self, o): return Sym.bin("add", self, o)
+    def __radd__(self, o): return Sym.bin("add", o, self)
+    def __sub__(self, o): return Sym.bin("sub", self, o)
+    def __rsub__(self, o): return Sym.bin("sub", o, self)
+    def __mul__(self, o): return Sym.bin("mul", self, o)
+    def __rmul__(self, o): return Sym.bin("mul", o, self)
+    def __truediv__(self, o): return Sym.bin("div", self, o)
+    def __rtruediv__(self, o): return Sym.bin("div", o, self)
+    def __neg__(self): return Sym(["neg", self.tree])
+
+    @classmethod
+    def __torch_function__(cls, func, types, args=(), kwargs=None):
+        name = getattr(func, "__name__", None)
+        if name in ("exp", "log", "sqrt", "sin", "cos") and len(args) == 1 and not kwargs:
+            return Sym([name, Sym.of(args[0]).tree])
+        if name == "erf" and len(args) == 1 and not kwargs:                            # erf(y) = 2 N(y sqrt 2) - 1
+            return 2.0 * Sym(["ncdf", (Sym.of(args[0]) * math.sqrt(2.0)).tree]) - 1.0
+        raise TypeError(f"pricer body outside the closed language of the model: {name}")
+
+
+def model_signature(pricer):
+    """inspect.signature(pricer).parameters as the model's `Sig`: [name, kind, default | None] (what autogreek itself reads)"""
+    import inspect
+    K = inspect.Parameter
+    kinds = {K.POSITIONAL_ONLY: "positional_only", K.POSITIONAL_OR_KEYWORD: "positional_or_keyword", K.VAR_POSITIONAL: "var_positional",
+             K.KEYWORD_ONLY: "keyword_only", K.VAR_KEYWORD: "var_keyword"}
+    return [[q.name, kinds[q.kind], None if q.default is K.empty else float_bits(float(q.default))]
+            for q in inspect.signature(pricer).parameters.values()]
+
+
+def symbolic_body(pricer):
+    """the body of the pricer as an `Expr` tree over the names of its declared parameters (defaults and keyword bindings of
+    functools.partial are overridden by the variables - the model applies them through the signature; a positionally bound
+    argument of a partial is a constant of the body)"""
+    import inspect
+    K = inspect.Parameter
+    pos, kw = [], {}
+    for q in inspect.signature(pricer).parameters.values():
+        if q.kind == K.POSITIONAL_ONLY:
+            pos.append(Sym(["var", q.name]))
+        elif q.kind in (K.POSITIONAL_OR_KEYWORD, K.KEYWORD_ONLY):
+            kw[q.name] = Sym(["var", q.name])
+    return Sym.of(pricer(*pos, **kw)).tree
+
+
+def recording(pricer, log):
+    """the pricer behind a wrapper that RECORDS the keyword arguments of every call; inspect.signature(wrapper) follows __wrapped__,
+    so autogreek reads the signature of the pricer itself"""
+    import functools
+
+    def wrapper(**kw):
+        log.append(dict(kw))
+        return pricer(**kw)
+    functools.update_wrapper(wrapper, pricer)
+    return wrapper
+
+
+def glue_items(torch, greek, pricer, params, log, st, val, F, case):
+    """one request to the model op "autogreek" per element of the full (broadcast) shape F: the signature autogreek reads, the caller's
+    keyword arguments of that element, the body of the pricer; with it what the REAL call did on that element - the keyword arguments
+    the pricer received (names in dict order, values), the Greek or the error.  `log`: calls recorded by `recording`."""
+    def elem(v, j):
+        if isinstance(v, torch.Tensor):
+            return float(v.detach().expand(F).reshape(-1)[j])
+        return float(v)
+    try:
+        sig, body = model_signature(pricer), symbolic_body(pricer)
+    except Exception as e:  # noqa - a pricer the closed language cannot express is not sent
+        return [("untranslatable", f"{type(e).__name__}: {e}"[:200])]
+    n = math.prod(F)
+    got = val.detach().to(torch.float64).reshape(-1) if st == "ok" else None
+    if st == "ok" and (len(log) != 1 or got.numel() != n):
+        return [("shape", {"calls": len(log), "greek_shape": list(val.shape), "price_shape": list(F)})]
+    out = []
+    for j in range(n):
+        req = {"op": "autogreek", "greek": "delta" if greek == "gamma_from_delta" else greek, "sig": sig,
+               "params": [[k, float_bits(elem(v, j))] for k, v in params.items()], "body": body}
+        rec = None if not log else [[k, elem(v, j)] for k, v in log[0].items()]
+        out.append((req, (case | {"element": j}, rec, st, float(got[j]) if st == "ok" else val)))
+    return out
 
 
 GRAD_STATES = ("no_grad", "set_grad_enabled(False)", "inference_mode", "default_dtype=float64", "default_dtype=float64+no_grad")
@@ -837,6 +946,9 @@ def check(ctx):
         if "ok" not in o or not rel_close(got, float_of_bits(o["ok"]), tol, 1e-9):
             ctx.disagree("module_greek_vs_dual_model", case, got, float_of_bits(o["ok"]) if "ok" in o else o)
     # ---------------- autogreek on user pricers, every accepted parameterisation
+    # (all user-pricer sections: the pricer is called through `recording`, and every call goes, element by element, to the model's glue -
+    # op "autogreek": which keyword arguments the pricer receives, with which values, which error, which Greek; compared after the last section)
+    glue = []
     for _ in range(300 if ctx.tier == "quick" else 2500):
         spotpar = g.choice(["spot", "moneyness", "log_moneyness"])
         volpar = g.choice(["volatility", "variance"])
@@ -880,11 +992,13 @@ def check(ctx):
             params["volatility"] = T(vol0)
         else:
             params["variance"] = T(vol0 * vol0)
-        st, val, _ = call_impl(getattr(ag, greek), pricer, **params)
+        glog = []
+        st, val, _ = call_impl(getattr(ag, greek), recording(pricer, glog), **params)
         case = {"autogreek": greek, "spot_param": spotpar, "vol_param": volpar, "form": form, "S": S0, "vol": vol0, "t": t0, "K": K}
         ctx.case(case, True, tag="autogreek")
         ctx.stats[f"autogreek={greek}/{spotpar}/{volpar}"] += 1
         ctx.traces += 1
+        glue.extend(glue_items(torch, greek, pricer, params, glog, st, val, (1,), case))
         if st != "ok":
             ctx.fail("autogreek raised on a smooth pricer", case, key=f"autogreek.{greek}:{spotpar}:{volpar}:error", detail=val)
             continue
@@ -941,7 +1055,8 @@ def check(ctx):
         params = {gs: X, given_vol: VP, "time_to_maturity": TM}
         if has_strike:
             params["strike"] = K
-        st, val, _ = call_impl(getattr(ag, greek), pricer, **params)
+        glog = []
+        st, val, _ = call_impl(getattr(ag, greek), recording(pricer, glog), **params)
         shared = sorted(nm for nm in "xvt" if tuple(shapes[nm]) != tuple(F))
         cls = "+".join((["cross"] if (p_spot, p_vol) != (gs, given_vol) else []) + (["broadcast"] if shared else []) + (["tiny"] if tiny else [])) or "plain"
         case = {"autogreek": greek, "given": [given_spot, given_vol], "pricer_params": [p_spot, p_vol], "pricer_has_strike": with_strike, "form": form,
@@ -950,6 +1065,7 @@ def check(ctx):
         ctx.case(case, True, tag="autogreek_grid")
         ctx.stats[f"autogreek_grid={greek}:{cls}"] += 1
         ctx.traces += 1
+        glue.extend(glue_items(torch, greek, pricer, params, glog, st, val, tuple(F), case))
         key = f"autogreek.{greek}:{given_spot}->{p_spot}:{given_vol}->{p_vol}:{cls}"
         if st != "ok":
             ctx.fail("autogreek raised on a smooth pricer (given parameterisation -> pricer parameterisation)", case, key=key + ":error", detail=val)
@@ -1009,13 +1125,15 @@ def check(ctx):
                 used = scale if pass_scale else fallback
                 x_of = (lambda S: S) if (p_spot == "spot" or with_strike) else (lambda S: S / Kf)
                 ref = harness_greeks(torch, lambda S, t, v: used * core(x_of(S), v, t, torch), Sx, TM, Vx)[base]
-                st, val, _ = call_impl(getattr(ag, greek), pricer, **params)
+                glog = []
+                st, val, _ = call_impl(getattr(ag, greek), recording(pricer, glog), **params)
                 case = {"autogreek": greek, "pricer_declared_as": decl, "signature": desc, "given": [given_spot, given_vol], "pricer_params": [p_spot, p_vol],
                         "pricer_has_strike": with_strike, "form": form, "S": S0, "vol": vol0, "t": t0, "K": Kf, "strike_given_as": strike_form if has_strike else None,
                         "scale_passed": scale if pass_scale else None, "scale_in_force": used}
                 ctx.case(case, True, tag="autogreek_declared")
                 ctx.stats[f"autogreek_declared={decl}:{greek}"] += 1
                 ctx.traces += 1
+                glue.extend(glue_items(torch, greek, pricer, params, glog, st, val, (n_,), case))
                 key = f"autogreek.{greek}:pricer-declared[{decl}]"
                 if st != "ok":
                     ctx.fail(f"autogreek.{greek} raised on a smooth user pricer declared as {desc}", case, key=key + ":error", detail=val)
@@ -1216,6 +1334,168 @@ def check(ctx):
             ctx.fail("automatic Greek raised (float64 tensors, Python float strike)", case, key=f"{route}.{greek}:float-strike:error", detail=val)
             continue
         judge(route, greek, 0, val, ref[greek], floor, case, "python-float")
+    # ---------------- the GLUE on its own, where the sections above never go: required parameters that are neither passed nor derived (TypeError),
+    # no spot / volatility / time parameterisation at all (ValueError, before any TypeError), `**kwargs` pricers (the signature filter keeps
+    # a name of ANY kind: only an entry literally called like the variadic parameter survives), positional-only parameters (never bound by
+    # autogreek's keyword call: default, or TypeError; the keyword lands in `**kwargs` when there is one), stale entries (moneyness /
+    # log_moneyness / variance passed next to the spot / volatility they contradict are OVERWRITTEN), variances <= 0 (clamped before the
+    # leaf is made: the pricer sees volatility 0 and variance 0), entries the pricer does not name (dropped).  Correspondence only: names
+    # and values received, error kind, Greek - against the model (op "autogreek").
+    GLUE_KINDS = ("missing-required", "no-parameterisation", "var-keyword", "positional-only+kwargs", "positional-only", "stale-entries",
+                  "nonpositive-variance", "unnamed-dropped")
+    for _ in range(4 if ctx.tier == "quick" else 40):
+        for kind in GLUE_KINDS:
+            for greek in ("delta", "gamma", "vega", "theta"):
+                spotlike = greek in ("delta", "gamma")
+                given_spot = g.choice(["spot", "spot+strike", "moneyness", "log_moneyness"])
+                given_vol = g.choice(["volatility", "variance"])
+                if kind == "stale-entries" and spotlike:
+                    given_spot = "spot+strike"
+                if kind == "stale-entries" and greek == "vega":
+                    given_vol = "volatility"
+                if kind == "nonpositive-variance":
+                    given_vol = "variance"
+                has_strike = given_spot != "spot"
+                gs = given_spot.split("+")[0]
+                p_spot = g.choice(["spot", "moneyness", "log_moneyness"]) if (spotlike and has_strike) else gs
+                p_vol = g.choice(["volatility", "variance"]) if greek == "vega" else given_vol
+                if kind == "missing-required":
+                    # a name autogreek.<greek> neither gets nor derives: a spot-like name without a strike (delta, gamma) or at all (vega,
+                    # theta), or the other volatility name (only vega derives one from the other)
+                    opts = []
+                    if (spotlike and given_spot == "spot") or not spotlike:
+                        opts.append("spot")
+                    if greek != "vega":
+                        opts.append("vol")
+                    which_missing = g.choice(opts)
+                    if which_missing == "spot":
+                        p_spot = g.choice([nm for nm in ("spot", "moneyness", "log_moneyness") if nm != gs])
+                    else:
+                        p_vol = "variance" if given_vol == "volatility" else "volatility"
+                n_ = g.small((1, 2))
+                Kf = g.choice(DYADIC_STRIKES[:5]) if g.chance(0.5) else g.r.uniform(0.4, 2.5)
+                S0 = [g.r.uniform(0.5, 2.0) for _ in range(n_)]
+                vol0 = [g.r.uniform(0.1, 0.8) for _ in range(n_)]
+                t0 = [g.r.uniform(0.2, 2.0) for _ in range(n_)]
+                a_, b_, c_ = g.r.uniform(0.5, 2), g.r.uniform(-1, 1), g.r.uniform(0.2, 1.5)
+                T_ = lambda xs: torch.tensor(xs, dtype=torch.float64)
+                X = T_(S0 if gs == "spot" else [s_ / Kf for s_ in S0] if gs == "moneyness" else [math.log(s_ / Kf) for s_ in S0])
+                if kind == "nonpositive-variance":
+                    VP = T_([g.choice([0.0, -0.01, -1.0, -1e-9]) for _ in range(n_)])
+                else:
+                    VP = T_(vol0 if given_vol == "volatility" else [v_ * v_ for v_ in vol0])
+                params = {gs: X, given_vol: VP, "time_to_maturity": T_(t0)}
+                if has_strike:
+                    params["strike"] = Kf if g.chance(0.5) else torch.tensor(Kf, dtype=torch.float64)
+                if kind == "no-parameterisation":
+                    if spotlike:
+                        drop = g.choice(["strike", gs] if (has_strike and gs != "spot") else [gs])
+                        params.pop(drop)
+                        if drop == gs and gs == "spot":
+                            params.pop("strike", None)
+                            if g.chance(0.5):
+                                params["moneyness"] = T_([1.1] * n_)          # a moneyness without a strike is no parameterisation
+                    elif greek == "vega":
+                        params.pop(given_vol)
+                    else:
+                        params.pop("time_to_maturity")
+                    if g.chance(0.5):
+                        p_vol = "variance" if p_vol == "volatility" else p_vol   # ... and a parameter may be missing on top: ValueError first
+                if kind == "stale-entries":
+                    if spotlike:
+                        params["moneyness"] = T_([g.r.uniform(0.5, 2.0) for _ in range(n_)])
+                        params["log_moneyness"] = T_([g.r.uniform(-0.5, 0.5) for _ in range(n_)])
+                    elif greek == "vega":
+                        params["variance"] = T_([g.r.uniform(0.01, 0.6) for _ in range(n_)])
+                    else:
+                        params["spot"] = T_([g.r.uniform(0.5, 2.0) for _ in range(n_)])
+                if kind == "unnamed-dropped":
+                    params["call"] = g.choice([1.0, 0.0])
+                    params["max_log_moneyness"] = T_([0.1] * n_)
+                    params["junk"] = 0.5
+                xs = {"spot": "spot", "moneyness": "moneyness", "log_moneyness": "torch.exp(log_moneyness)"}[p_spot]
+                if kind == "nonpositive-variance":
+                    vs = p_vol                                                    # polynomial in the name itself: smooth at 0
+                else:
+                    vs = "volatility" if p_vol == "volatility" else "torch.sqrt(variance)"
+                names = [p_spot, p_vol, "time_to_maturity"] + (["strike"] if (has_strike and g.chance(0.4)) else [])
+                g.r.shuffle(names)
+                body = f"a_ * X * X * V + b_ * torch.log(X + 1.0) * T + c_ * V * V * torch.sqrt(T) * X"
+                body = body.replace("X", f"({xs})").replace("V", f"({vs})").replace("T", "time_to_maturity")
+                ns = {"torch": torch, "a_": a_, "b_": b_, "c_": c_}
+                scale_passed = None
+                if kind == "var-keyword":
+                    var = g.choice(["kwargs", "extra", "params"])
+                    decl = ", ".join(names) + f", **{var}"
+                    if g.chance(0.7):
+                        params[g.choice(["kwargs", "extra", "params"])] = 2.0     # survives the filter iff it is the name of the variadic parameter
+                    params["junk"] = 0.5
+                elif kind in ("positional-only+kwargs", "positional-only"):
+                    decl = "scale=2.0, /, *, " + ", ".join(names) + (", **extra" if kind == "positional-only+kwargs" else "")
+                    body = "scale * (" + body + ")"
+                    if kind == "positional-only+kwargs" or g.chance(0.5):
+                        scale_passed = g.choice([1.5, 0.75, 3.0])
+                        params["scale"] = scale_passed
+                else:
+                    star = g.choice([None, 0, g.randint(1, len(names) - 1)])
+                    decl = ", ".join(x for i, nm in enumerate(names) for x in ((["*"] if star == i else []) + [nm]))
+                exec(f"def pricer({decl}):\n    return {body}\n", ns)
+                pricer = ns["pricer"]
+                glog = []
+                st, val, _ = call_impl(getattr(ag, greek), recording(pricer, glog), **params)
+                case = {"glue": kind, "autogreek": greek, "signature": f"pricer({decl})", "body": body, "a": a_, "b": b_, "c": c_,
+                        "passed": {k: (v.tolist() if isinstance(v, torch.Tensor) else v) for k, v in params.items()}}
+                ctx.case(case, True, tag="autogreek_glue")
+                ctx.stats[f"autogreek_glue={kind}:{greek}:{'ok' if st == 'ok' else val}"] += 1
+                ctx.traces += 1
+                glue.extend(glue_items(torch, greek, pricer, params, glog, st, val, (n_,), case))
+    # ---------------- the model's glue (op "autogreek") against every recorded call
+    def gdis(case, impl, model, note):
+        ctx.stats[f"autogreek_glue_disagreement={note.split(' (')[0]}"] += 1
+        ctx.disagree("autogreek", case, impl, model, note=note)
+
+    gitems = []
+    for it in glue:
+        if isinstance(it[0], dict):
+            gitems.append(it)
+        else:
+            ctx.stats[f"autogreek_glue_not_sent={it[0]}"] += 1
+            if it[0] == "untranslatable":
+                gdis({"not_sent": it[0]}, it[1], None, "the pricer could not be translated into the model's closed language")
+    try:
+        gouts = ctx.driver([r for r, _ in gitems])
+    except DriverBroken as e:
+        ctx.ties_broken.append({"kind": "driver", "detail": str(e)[:1500]})
+        gouts = []
+    for (req, (case, rec, st, got)), o in zip(gitems, gouts):
+        ctx.stats["autogreek_glue_elements"] += 1
+        impl = {"received": rec, "status": st, "greek_or_error": got}
+        if "received" not in o:                       # the model raises before the pricer is called (ValueError)
+            if not (st != "ok" and got == o.get("err") and rec is None):
+                gdis(case, impl, o, "error before the pricer is called")
+            continue
+        mrec = [[k, float_of_bits(v)] for k, v in o["received"]]
+        mg = o["greek"]
+        model = {"received": mrec, "greek_or_error": float_of_bits(mg["ok"]) if "ok" in mg else mg}
+        if rec is None or [k for k, _ in rec] != [k for k, _ in mrec]:
+            gdis(case, impl, model, "names of the keyword arguments the pricer receives (dict order)")
+            continue
+        # values: the same IEEE operations on both sides up to the last place of exp / log / sqrt (measured: 2e-16 relative; a log-moneyness
+        # near 0 is rebuilt as log(exp(l) K / K): absolute error ~1e-16); a single-precision conversion (6e-8) or a moved evaluation point
+        # is far outside
+        if any(not rel_close(a, b, 1e-12, 1e-15) for (_, a), (_, b) in zip(rec, mrec)):
+            gdis(case, impl, model, "values of the keyword arguments the pricer receives")
+            continue
+        if "err" in mg:
+            if not (st != "ok" and got == mg["err"]):
+                gdis(case, impl, model, "error of the call")
+        else:
+            # reverse mode (torch) against forward mode (model, dual numbers) of the same smooth body in double precision (measured on the
+            # quick and thorough tiers: at most 1.3e-10 relative at first order, 3.4e-11 at second order - conditioning up to
+            # 1 / (vol sqrt t) ~ 1e5)
+            tol, floor = (1e-7, 1e-10) if req["greek"] == "gamma" else (1e-8, 1e-12)
+            if st != "ok" or not rel_close(got, float_of_bits(mg["ok"]), tol, floor):
+                gdis(case, impl, model, "Greek")
     return ctx.finish(
         rule="closed-form Greeks of the three families over the whole box (t != 1 and K != 1 almost always; American binary mostly in the "
              "continuation region), module Greeks incl. autogreek-based lookback, autogreek on generated pricers x {spot, moneyness, log_moneyness} x "
@@ -1232,4 +1512,9 @@ def check(ctx):
              "keyword-only wrappers and functools.partial keyword bindings (also vs the model, op bs_dual); every family x Greek x global state "
              "(no_grad, set_grad_enabled(False), inference_mode, default dtype float64 with float64 / float32 data, both) through the module, its "
              "forward, the functional form or autogreek - routes independent of the caller's gradient mode must answer, values must be derivatives; "
+             "the glue of autogreek (op autogreek): every call of the three user-pricer sections through a recording wrapper, element by element - "
+             "keyword arguments received (names exactly, values to 1e-12), error kind, Greek (1e-8, gamma 1e-7) vs the model's parse / derive / "
+             "signature filter / argument binding / dual-number evaluation of the symbolically executed body; 8 kinds of glue-only cases x 4 Greeks "
+             "(missing required parameter, no parameterisation, **kwargs, positional-only with and without **kwargs, stale entries, variance <= 0, "
+             "unnamed entries); "
              "non-trivial = t != 1 or K != 1 (closed forms), all others; distinct = sha1 of canonical case")
